@@ -109,116 +109,401 @@ Proof.
   - cbn [first_some fold_right]. unfold xres. rewrite (pair_anti_c _ _ Hp). reflexivity.
 Qed.
 
+(* ------------------------------------------------------------------------- *)
+(* The decision list for ALL THREE ignore* flags and for BOTH members of a
+   (capability p, anti-capability a) pair.
+
+   checkCapability's docstring:
+     ignoreOwner        disables "owners have all capabilities"
+                        (an explicit 'owner' in the set is then just a capability);
+     ignoreChannelOp    disables "channel ops have all channel capabilities";
+     ignoreDefaultAllow disables "if a user has neither the capability nor the
+                        anticapability then they have the capability": every
+                        default-allow fallback (channel defaultAllow, the global
+                        default flag) answers as if it were False.
+
+   [anti] says which member of the pair is asked; a level that decides "the
+   sender has p: b" answers  holds anti b = (if anti then negb b else b).
+
+   Three places where the list mirrors what the code does rather than the
+   docstring read literally (each is what src/ircdb.py computes):
+   (1) ignoreDefaultAllow, RECOGNISED sender, channel capability, nothing
+       explicit: the code ends in a plain `return False`, not `_x(capability,
+       False)`, so the anti-capability is refused too (for an unrecognised
+       sender it is _x(capability, False): the anti-capability holds).  This is
+       the only place where p and a do not get opposite answers; DESIGN
+       section 6 lists it as a non-finding (AutoMode-only flag).
+   (2) ignoreOwner is not handed to the channel-op test
+       (`u._checkCapability(chanop)`): an owner still counts as channel op of
+       every channel unless ignoreChannelOp is set as well.
+   (3) ignoreOwner is not handed to the membership test
+       (`capability in u.capabilities`): an IGNORED owner is stopped at the user
+       level (gets nothing) even with ignoreOwner. *)
+Definition holds (anti b : bool) : bool := if anti then negb b else b.
+
+Definition is_some {A} (o : option A) : bool := match o with Some _ => true | None => false end.
+
+Definition first_opt (l : list (option bool)) : option bool :=
+  fold_right (fun o acc => match o with Some b => Some b | None => acc end) None l.
+
+Definition spec_flags (d : db) (p a : str) (ch : option (str * str * str)) (f : flags) (anti : bool) : bool :=
+  let p' := fold p in let a' := fold a in
+  let user_level : option bool :=
+    match effective_user d with
+    | None => None
+    | Some u =>
+        let owner := smem OWNER (u_caps u) in
+        if seq_eqb p' OWNER then Some (negb (u_ignore u) && owner)               (* asking for 'owner' itself *)
+        else if owner && negb (f_ignoreOwner f) then Some (negb (u_ignore u))    (* owners have all capabilities (an ignored one nothing) *)
+        else match explicit (u_caps u) p' a' with
+             | Some b => Some (negb (u_ignore u) && b)                           (* explicit user (anti)capability *)
+             | None => if owner && u_ignore u then Some false else None          (* note (3) *)
+             end
+    end in
+  match user_level with
+  | Some b => holds anti b
+  | None =>
+      match ch with
+      | Some (chn, x, ax) =>
+          let c := getChannel d chn in
+          let chanop : option bool :=
+            match effective_user d with
+            | Some u =>
+                if negb (f_ignoreChannelOp f) && negb (u_ignore u)
+                   && (smem OWNER (u_caps u)                                     (* note (2) *)
+                       || smem (fold (chn ++ [COMMA] ++ OP)) (u_caps u))
+                then Some true else None
+            | None => None
+            end in
+          match first_opt [chanop; explicit (ch_caps c) (fold x) (fold ax)] with
+          | Some b => holds anti b
+          | None =>
+              if f_ignoreDefaultAllow f then
+                match effective_user d with
+                | Some _ => false                                                (* note (1): plain False *)
+                | None => holds anti false
+                end
+              else holds anti (ch_default c)
+          end
+      | None =>
+          holds anti
+            (first_some [explicit (d_defaults d) p' a';
+                         match effective_user d with
+                         | Some _ => explicit (d_registered d) p' a'
+                         | None => None
+                         end] (negb (f_ignoreDefaultAllow f) && d_flag d))
+      end
+  end.
+
+(* (channel, x, -x) of a channel capability *)
+Definition chan_triple (p : str) : option (str * str * str) :=
+  match chan_parts p with Some (chn, x) => Some (chn, x, DASH :: x) | None => None end.
+
+(* with the default flags and for the capability itself this is spec_pos *)
+Lemma spec_flags0 d p a ch : spec_flags d p a ch flags0 false = spec_pos d p a ch.
+Proof.
+  unfold spec_flags, spec_pos, holds, flags0. cbn [f_ignoreOwner f_ignoreChannelOp f_ignoreDefaultAllow negb andb].
+  cbv zeta.
+  destruct (effective_user d) as [u|].
+  - destruct (seq_eqb (fold p) OWNER).
+    { destruct (u_ignore u), (smem OWNER (u_caps u)); reflexivity. }
+    destruct (smem OWNER (u_caps u)) eqn:Eo; cbn [andb orb].
+    { reflexivity. }
+    destruct (explicit (u_caps u) (fold p) (fold a)) as [b|].
+    { destruct (u_ignore u), b; reflexivity. }
+    destruct ch as [[[chn x] ax]|]; [|reflexivity].
+    cbn [first_opt first_some fold_right].
+    destruct (negb (u_ignore u) && smem (fold (chn ++ [COMMA] ++ OP)) (u_caps u)); [reflexivity|].
+    destruct (explicit (ch_caps (getChannel d chn)) (fold x) (fold ax)); reflexivity.
+  - destruct ch as [[[chn x] ax]|]; [|reflexivity].
+    cbn [first_opt first_some fold_right].
+    destruct (explicit (ch_caps (getChannel d chn)) (fold x) (fold ax)); reflexivity.
+Qed.
+
+Section Ask.
+Variables (p a : str).
+Hypothesis Hpair : antipair p a.
+Variable anti : bool.
+Local Notation q := (if anti then a else p).
+Local Notation ex S := (explicit S (fold p) (fold a)).
+
+Lemma ask_isCap : isCapability q = true.
+Proof. destruct (antipair_facts _ _ Hpair) as [Hc [Ha _]]. destruct anti; assumption. Qed.
+
+Lemma ask_isAnti : isAntiCapability q = anti.
+Proof. destruct anti; [exact (pair_anti_a _ _ Hpair)|exact (pair_anti_c _ _ Hpair)]. Qed.
+
+Lemma ask_xres r : xres q r = holds anti r.
+Proof. unfold xres, holds. rewrite ask_isAnti. reflexivity. Qed.
+
+Lemma ask_contains S : cs_contains S q = Ok (is_some (ex S)).
+Proof.
+  destruct (cs_contains_pair _ _ Hpair S) as [E1 E2].
+  assert (E : cs_contains S q = Ok (smem (fold p) S || smem (fold a) S)) by (destruct anti; assumption).
+  rewrite E. unfold explicit, is_some. destruct (smem (fold p) S); [reflexivity|]. destruct (smem (fold a) S); reflexivity.
+Qed.
+
+Lemma ask_check S : set_ok S = true ->
+  cs_check S q = match ex S with Some b => Ok (holds anti b) | None => Raise KeyError end.
+Proof.
+  intro HS. destruct anti.
+  - unfold cs_check, explicit, holds. rewrite (pair_inv_ac _ _ Hpair). cbn [bind].
+    destruct (smem (fold p) S) eqn:Ep.
+    + rewrite (pair_excl _ _ _ HS (pair_inv_ca _ _ Hpair) Ep). reflexivity.
+    + destruct (smem (fold a) S); reflexivity.
+  - rewrite (cs_check_explicit _ _ Hpair _ HS). destruct (ex S); reflexivity.
+Qed.
+
+Lemma ask_defaults d reg iDA : db_ok d = true ->
+  check_defaults d q reg iDA =
+  Ok (holds anti (first_some [ex (d_defaults d); if reg then ex (d_registered d) else None]
+                             (negb iDA && d_flag d))).
+Proof.
+  intro Hok. destruct (db_ok_parts _ Hok) as [HD [HR _]].
+  assert (Hx : xres q (if iDA then false else d_flag d) = holds anti (negb iDA && d_flag d)).
+  { rewrite ask_xres. destruct iDA; reflexivity. }
+  unfold check_defaults. rewrite ask_contains. cbn [bind]. rewrite (ask_check _ HD).
+  destruct (ex (d_defaults d)) as [b|]; [reflexivity|]. cbn [is_some first_some fold_right].
+  destruct reg; cbn [bind].
+  - rewrite ask_contains. cbn [bind]. rewrite (ask_check _ HR).
+    destruct (ex (d_registered d)) as [b|]; [reflexivity|]. cbn [is_some]. rewrite Hx. reflexivity.
+  - rewrite Hx. reflexivity.
+Qed.
+
+(* "if capability in c.capabilities: return c._checkCapability(capability) else K" *)
+Lemma ask_chan ch (K : res bool) : set_ok (ch_caps ch) = true ->
+  (do b <- cs_contains (ch_caps ch) q; if b then chan_check ch q else K)
+  = match ex (ch_caps ch) with Some b => Ok (holds anti b) | None => K end.
+Proof.
+  intro HS. rewrite ask_contains. cbn [bind].
+  destruct (ex (ch_caps ch)) as [b|] eqn:E; cbn [is_some]; [|reflexivity].
+  unfold chan_check. rewrite ask_isCap. cbn [negb]. rewrite ask_contains, E. cbn [bind is_some].
+  rewrite (ask_check _ HS), E. reflexivity.
+Qed.
+
+Lemma ask_owner_words :
+  seq_eqb (fold q) OWNER = (negb anti && seq_eqb (fold p) OWNER) /\
+  seq_eqb (fold q) ANTIOWNER = (anti && seq_eqb (fold p) OWNER).
+Proof.
+  destruct (owner_cond_gen _ _ (antipair_fold _ _ Hpair)) as [_ [H1 [H2 H3]]].
+  destruct anti; cbn [negb andb]; auto.
+Qed.
+
+(* `capability in u.capabilities` (never told about ignoreOwner) *)
+Lemma ask_ucs_contains S :
+  ucs_contains S q false = Ok (seq_eqb (fold p) OWNER || smem OWNER S || is_some (ex S)).
+Proof.
+  unfold ucs_contains. destruct ask_owner_words as [H1 H2]. rewrite H1, H2. cbn [negb andb].
+  rewrite cs_contains_fold, ask_contains.
+  destruct anti, (seq_eqb (fold p) OWNER), (smem OWNER S); reflexivity.
+Qed.
+
+(* u._checkCapability(capability, ignoreOwner) *)
+Lemma ask_user_check u io : set_ok (u_caps u) = true ->
+  user_check u q io =
+  if u_ignore u then Ok anti
+  else if seq_eqb (fold p) OWNER then Ok (holds anti (smem OWNER (u_caps u)))
+  else if negb io && smem OWNER (u_caps u) then Ok (holds anti true)
+  else match ex (u_caps u) with Some b => Ok (holds anti b) | None => Raise KeyError end.
+Proof.
+  intro HS. unfold user_check. rewrite ask_isAnti. destruct (u_ignore u); [reflexivity|].
+  unfold ucs_check. destruct ask_owner_words as [H1 H2]. rewrite H1, H2, fold_isAnti, ask_isAnti.
+  rewrite cs_check_fold, (ask_check _ HS). unfold holds.
+  destruct anti, (seq_eqb (fold p) OWNER), (smem OWNER (u_caps u)), io; reflexivity.
+Qed.
+End Ask.
+
+(* the channel-op test  u._checkCapability(makeChannelCapability(channel, 'op')) *)
+Lemma chanop_stage u chn :
+  isChannel chn = true -> mem COMMA chn = false -> nows chn = true -> set_ok (u_caps u) = true ->
+  (do chanop <- makeChannelCapability chn OP; user_check u chanop false) =
+  if u_ignore u then Ok false
+  else if smem OWNER (u_caps u) then Ok true
+  else if smem (fold (chn ++ [COMMA] ++ OP)) (u_caps u) then Ok true
+  else if smem (fold (chn ++ COMMA :: DASH :: OP)) (u_caps u) then Ok false
+  else Raise KeyError.
+Proof.
+  intros Hch Hm Hnw HS.
+  assert (Hop : antipair (chn ++ COMMA :: OP) (chn ++ COMMA :: DASH :: OP)).
+  { apply ap_chan; try assumption; reflexivity. }
+  unfold makeChannelCapability. change (isCapability OP) with true. rewrite Hch. cbn [negb bind].
+  change (chn ++ [COMMA] ++ OP) with (chn ++ COMMA :: OP).
+  pose proof (ask_user_check _ _ Hop false u false HS) as H. cbv iota in H. rewrite H.
+  destruct (comma_not_owner (fold chn) (fold OP)) as [Oo1 _].
+  assert (Ho1 : seq_eqb (fold (chn ++ COMMA :: OP)) OWNER = false).
+  { rewrite fold_app. change (fold (COMMA :: OP)) with (fold_char COMMA :: fold OP). rewrite fold_comma. exact Oo1. }
+  rewrite Ho1. cbn [negb andb]. unfold explicit, holds.
+  destruct (u_ignore u); [reflexivity|]. destruct (smem OWNER (u_caps u)); [reflexivity|].
+  destruct (smem (fold (chn ++ COMMA :: OP)) (u_caps u)); [reflexivity|].
+  destruct (smem (fold (chn ++ COMMA :: DASH :: OP)) (u_caps u)); reflexivity.
+Qed.
+
+(* checkCapability computes the flag-aware decision list: for every database
+   built by add, every pair of dom_cap, whichever member is asked, and EVERY
+   flag triple *)
+Theorem check_is_spec_flags d p a f (anti : bool) :
+  antipair p a -> db_ok d = true ->
+  checkCapability d (if anti then a else p) f = Ok (spec_flags d p a (chan_triple p) f anti).
+Proof.
+  intros Hp Hok. destruct (db_ok_parts _ Hok) as [HD [HR HU]].
+  destruct f as [iO iC iDA].
+  unfold checkCapability, spec_flags, effective_user, chan_triple.
+  cbn [f_ignoreDefaultAllow f_ignoreOwner f_ignoreChannelOp]. cbv zeta.
+  pose proof Hp as Hp'.
+  destruct Hp' as [c0 Hwf Hcp Hd | chn x Hch Hm Hnw Hwx Hd Hcx].
+  - (* plain capability *)
+    assert (Hcpq : chan_parts (if anti then DASH :: c0 else c0) = None)
+      by (destruct anti; [apply chan_parts_dash|exact Hcp]).
+    rewrite Hcpq, Hcp.
+    assert (Hunk : check_unknown d (if anti then DASH :: c0 else c0) iDA =
+                   Ok (holds anti (first_some [explicit (d_defaults d) (fold c0) (fold (DASH :: c0)); None]
+                                              (negb iDA && d_flag d)))).
+    { unfold check_unknown. rewrite Hcpq. exact (ask_defaults _ _ Hp anti d false iDA Hok). }
+    destruct (d_user d) as [u|] eqn:Eu; [|exact Hunk].
+    destruct (u_secure u && negb (d_hostok d)); [exact Hunk|].
+    specialize (HU u eq_refl).
+    rewrite (ask_ucs_contains _ _ Hp anti), (ask_defaults _ _ Hp anti d true iDA Hok),
+            (ask_user_check _ _ Hp anti u iO HU).
+    cbn [bind].
+    destruct (seq_eqb (fold c0) OWNER), (smem OWNER (u_caps u)),
+             (explicit (u_caps u) (fold c0) (fold (DASH :: c0))) as [[|]|],
+             (u_ignore u), iO, anti; reflexivity.
+  - (* channel capability *)
+    pose proof (one_word_wf _ Hwx) as Hx. pose proof (one_word_wf _ (wf_dash _ Hwx)) as Hdx.
+    assert (Hsub : antipair x (DASH :: x)) by (apply ap_plain; assumption).
+    pose proof (getChannel_ok d chn Hok) as Hcok.
+    assert (Hcpq : chan_parts (if anti then chn ++ COMMA :: DASH :: x else chn ++ COMMA :: x)
+                   = Some (chn, if anti then DASH :: x else x)).
+    { destruct anti; [exact (chan_parts_make chn _ Hm Hch Hdx)|exact (chan_parts_make chn x Hm Hch Hx)]. }
+    rewrite Hcpq, (chan_parts_make chn x Hm Hch Hx).
+    destruct (comma_not_owner (fold chn) (fold x)) as [No1 _].
+    assert (Hfo : seq_eqb (fold (chn ++ COMMA :: x)) OWNER = false).
+    { rewrite fold_app. change (fold (COMMA :: x)) with (fold_char COMMA :: fold x). rewrite fold_comma. exact No1. }
+    rewrite Hfo.
+    assert (Hunk : check_unknown d (if anti then chn ++ COMMA :: DASH :: x else chn ++ COMMA :: x) iDA =
+                   Ok (match first_opt [None; explicit (ch_caps (getChannel d chn)) (fold x) (fold (DASH :: x))] with
+                       | Some b => holds anti b
+                       | None => if iDA then holds anti false else holds anti (ch_default (getChannel d chn))
+                       end)).
+    { unfold check_unknown. rewrite Hcpq.
+      rewrite (ask_chan _ _ Hsub anti (getChannel d chn) _ Hcok), (ask_xres _ _ Hsub anti).
+      cbn [first_opt fold_right].
+      destruct (explicit (ch_caps (getChannel d chn)) (fold x) (fold (DASH :: x))) as [b|]; cbn [catch_key]; [reflexivity|].
+      destruct iDA; reflexivity. }
+    destruct (d_user d) as [u|] eqn:Eu; [|exact Hunk].
+    destruct (u_secure u && negb (d_hostok d)); [exact Hunk|].
+    specialize (HU u eq_refl).
+    rewrite (ask_ucs_contains _ _ Hp anti), Hfo, (ask_user_check _ _ Hp anti u iO HU), Hfo.
+    rewrite (ask_chan _ _ Hsub anti (getChannel d chn) _ Hcok), (ask_xres _ _ Hsub anti), (ask_xres _ _ Hsub anti).
+    rewrite (chanop_stage u chn Hch Hm Hnw HU).
+    cbn [bind orb first_opt fold_right].
+    destruct (smem OWNER (u_caps u)),
+             (explicit (u_caps u) (fold (chn ++ COMMA :: x)) (fold (chn ++ COMMA :: DASH :: x))) as [[|]|],
+             (u_ignore u), iO, iC,
+             (smem (fold (chn ++ [COMMA] ++ OP)) (u_caps u)),
+             (smem (fold (chn ++ COMMA :: DASH :: OP)) (u_caps u)),
+             (explicit (ch_caps (getChannel d chn)) (fold x) (fold (DASH :: x))) as [[|]|],
+             iDA, anti; reflexivity.
+Qed.
+
 (* checkCapability computes the decision list, for every database built by add
-   and every non-anti capability of dom_cap *)
+   and every non-anti capability of dom_cap (default flags): the instance
+   flags0 / anti = false of check_is_spec_flags *)
 Theorem check_is_spec d p a :
   antipair p a -> db_ok d = true ->
   checkCapability d p flags0 =
   Ok (spec_pos d p a
         (match chan_parts p with Some (chn, x) => Some (chn, x, DASH :: x) | None => None end)).
 Proof.
-  intros Hp Hok. destruct (db_ok_parts _ Hok) as [HD [HR HU]].
-  unfold checkCapability, spec_pos, effective_user. cbn [flags0 f_ignoreDefaultAllow f_ignoreOwner f_ignoreChannelOp negb].
-  pose proof Hp as Hp'.
-  destruct Hp' as [c0 Hwf Hcp Hd | chn x Hch Hm Hnw Hwx Hd Hcx].
-  - (* plain capability *)
-    rewrite Hcp.
-    destruct (d_user d) as [u|] eqn:Eu.
-    2:{ unfold check_unknown. rewrite Hcp. rewrite (check_defaults_spec _ _ _ Hp Hok). reflexivity. }
-    destruct (u_secure u && negb (d_hostok d)).
-    { unfold check_unknown. rewrite Hcp. rewrite (check_defaults_spec _ _ _ Hp Hok). reflexivity. }
-    specialize (HU u eq_refl).
-    unfold ucs_contains. cbn [negb andb].
-    destruct (owner_cond_gen _ _ (antipair_fold _ _ Hp)) as [_ [Hna _]]. rewrite Hna, orb_false_r.
-    destruct (seq_eqb (fold c0) OWNER) eqn:Eo.
-    + cbn [bind]. unfold user_check. destruct (u_ignore u).
-      * cbn [catch_key]. rewrite (pair_anti_c _ _ Hp). reflexivity.
-      * unfold ucs_check. rewrite Eo. cbn [orb]. rewrite fold_isAnti, (pair_anti_c _ _ Hp).
-        destruct (smem OWNER (u_caps u)); reflexivity.
-    + destruct (smem OWNER (u_caps u)) eqn:Eow.
-      * cbn [bind]. unfold user_check. destruct (u_ignore u).
-        -- cbn [catch_key]. rewrite (pair_anti_c _ _ Hp). reflexivity.
-        -- unfold ucs_check. rewrite Eo, Hna, Eow. cbn [orb negb andb catch_key].
-           rewrite fold_isAnti, (pair_anti_c _ _ Hp). reflexivity.
-      * rewrite cs_contains_fold, (cs_contains_explicit _ _ Hp). cbn [bind].
-        destruct (explicit (u_caps u) (fold c0) (fold (DASH :: c0))) as [b|] eqn:Ee.
-        -- unfold user_check. destruct (u_ignore u).
-           ++ cbn [catch_key]. rewrite (pair_anti_c _ _ Hp). reflexivity.
-           ++ unfold ucs_check. rewrite Eo, Hna, Eow. cbn [orb negb andb].
-              rewrite cs_check_fold, (cs_check_explicit _ _ Hp _ HU), Ee. reflexivity.
-        -- rewrite (check_defaults_spec _ _ _ Hp Hok). reflexivity.
-  - (* channel capability *)
-    pose proof (one_word_wf _ Hwx) as Hx. pose proof (one_word_wf _ (wf_dash _ Hwx)) as Hdx.
-    rewrite (chan_parts_make chn x Hm Hch Hx).
-    assert (Hsub : antipair x (DASH :: x)) by (apply ap_plain; assumption).
-    pose proof (getChannel_ok d chn Hok) as Hcok.
-    destruct (comma_not_owner (fold chn) (fold x)) as [No1 No2].
-    assert (Hfo : seq_eqb (fold (chn ++ COMMA :: x)) OWNER = false).
-    { rewrite fold_app. change (fold (COMMA :: x)) with (fold_char COMMA :: fold x). rewrite fold_comma. exact No1. }
-    assert (Hfa : seq_eqb (fold (chn ++ COMMA :: x)) ANTIOWNER = false).
-    { rewrite fold_app. change (fold (COMMA :: x)) with (fold_char COMMA :: fold x). rewrite fold_comma. exact No2. }
-    assert (Hunknown : check_unknown d (chn ++ COMMA :: x) false =
-                       Ok (first_some [None; explicit (ch_caps (getChannel d chn)) (fold x) (fold (DASH :: x))]
-                                      (ch_default (getChannel d chn)))).
-    { unfold check_unknown. rewrite (chan_parts_make chn x Hm Hch Hx).
-      cbn [negb andb]. 
-      pose proof (chan_check_spec (getChannel d chn) x (DASH :: x) Hsub Hcok) as Hcs.
-      cbn [first_some fold_right] in *. rewrite Hcs. reflexivity. }
-    destruct (d_user d) as [u|] eqn:Eu; [|exact Hunknown].
-    destruct (u_secure u && negb (d_hostok d)); [exact Hunknown|].
-    specialize (HU u eq_refl).
-    unfold ucs_contains. cbn [negb andb]. rewrite Hfo, Hfa. cbn [orb].
-    (* the chan-op stage and what follows *)
-    assert (Hrest :
-      (let after_op :=
-         let ch := getChannel d chn in
-         do b2 <- cs_contains (ch_caps ch) x;
-         if b2 then chan_check ch x else if true then Ok (xres x (ch_default ch)) else Ok false in
-       match (do chanop <- makeChannelCapability chn OP; user_check u chanop false) with
-       | Ok true => Ok (xres x true)
-       | Ok false => after_op
-       | Raise KeyError => after_op
-       | Raise e => Raise e
-       end)
-      = Ok (first_some [if negb (u_ignore u) && smem (fold (chn ++ [COMMA] ++ OP)) (u_caps u) then Some true else None;
-                        explicit (ch_caps (getChannel d chn)) (fold x) (fold (DASH :: x))]
-                       (ch_default (getChannel d chn)))
-      \/ smem OWNER (u_caps u) = true).
-    { destruct (smem OWNER (u_caps u)) eqn:Eow; [right; reflexivity|left].
-      cbv zeta. unfold makeChannelCapability. change (isCapability OP) with true. rewrite Hch. cbn [negb bind].
-      pose proof (chan_check_spec (getChannel d chn) x (DASH :: x) Hsub Hcok) as Hcs. cbn [first_some fold_right] in Hcs.
-      unfold user_check. destruct (u_ignore u) eqn:Eig.
-      - assert (Hno : isAntiCapability (chn ++ [COMMA] ++ OP) = false).
-        { assert (Hop : antipair (chn ++ COMMA :: OP) (chn ++ COMMA :: DASH :: OP)).
-          { apply ap_chan; try assumption; try reflexivity. }
-          exact (pair_anti_c _ _ Hop). }
-        rewrite Hno. cbn [negb andb first_some fold_right]. exact Hcs.
-      - cbn [negb andb]. unfold ucs_check.
-        assert (Hop : antipair (chn ++ COMMA :: OP) (chn ++ COMMA :: DASH :: OP)).
-        { apply ap_chan; try assumption; try reflexivity. }
-        destruct (owner_cond_gen _ _ (antipair_fold _ _ Hop)) as [_ [Hx1 _]].
-        destruct (comma_not_owner (fold chn) (fold OP)) as [Oo1 Oo2].
-        assert (Ho1 : seq_eqb (fold (chn ++ [COMMA] ++ OP)) OWNER = false).
-        { rewrite fold_app. change (fold ([COMMA] ++ OP)) with (fold_char COMMA :: fold OP). rewrite fold_comma. exact Oo1. }
-        assert (Ho2 : seq_eqb (fold (chn ++ [COMMA] ++ OP)) ANTIOWNER = false).
-        { rewrite fold_app. change (fold ([COMMA] ++ OP)) with (fold_char COMMA :: fold OP). rewrite fold_comma. exact Oo2. }
-        rewrite Ho1, Ho2, Eow. cbn [orb andb].
-        rewrite cs_check_fold. change (chn ++ [COMMA] ++ OP) with (chn ++ COMMA :: OP).
-        rewrite (cs_check_explicit _ _ Hop _ HU). unfold explicit.
-        destruct (smem (fold (chn ++ COMMA :: OP)) (u_caps u)).
-        + cbn [first_some fold_right]. unfold xres. rewrite (pair_anti_c _ _ Hsub). reflexivity.
-        + destruct (smem (fold (chn ++ COMMA :: DASH :: OP)) (u_caps u)); cbn [first_some fold_right]; exact Hcs. }
-    destruct (smem OWNER (u_caps u)) eqn:Eow.
-    + cbn [bind]. unfold user_check. destruct (u_ignore u).
-      * cbn [catch_key negb]. rewrite (pair_anti_c _ _ Hp). reflexivity.
-      * unfold ucs_check. rewrite Hfo, Hfa, Eow. cbn [orb negb andb catch_key].
-        rewrite fold_isAnti, (pair_anti_c _ _ Hp). reflexivity.
-    + destruct Hrest as [Hrest|Hrest]; [|discriminate].
-      rewrite cs_contains_fold, (cs_contains_explicit _ _ Hp). cbn [bind].
-      destruct (explicit (u_caps u) (fold (chn ++ COMMA :: x)) (fold (chn ++ COMMA :: DASH :: x))) as [b|] eqn:Ee.
-      * unfold user_check. destruct (u_ignore u).
-        -- cbn [catch_key]. rewrite (pair_anti_c _ _ Hp). reflexivity.
-        -- unfold ucs_check. rewrite Hfo, Hfa, Eow. cbn [orb negb andb].
-           rewrite cs_check_fold, (cs_check_explicit _ _ Hp _ HU), Ee. reflexivity.
-      * exact Hrest.
+  intros Hp Hok. rewrite <- spec_flags0. exact (check_is_spec_flags d p a flags0 false Hp Hok).
 Qed.
+
+(* ---- anti-symmetry, read off the decision list ---- *)
+Lemma holds_true b : holds true b = negb (holds false b).
+Proof. reflexivity. Qed.
+
+(* the decision list gives p and a opposite answers, except in the one place of
+   note (1): ignoreDefaultAllow, a recognised sender, a channel capability and
+   nothing explicit -- there both are refused *)
+Lemma spec_flags_opposite_or_refused d p a ch f :
+  spec_flags d p a ch f true = negb (spec_flags d p a ch f false)
+  \/ (f_ignoreDefaultAllow f = true /\ effective_user d <> None /\ ch <> None /\
+      spec_flags d p a ch f true = false /\ spec_flags d p a ch f false = false).
+Proof.
+  unfold spec_flags. cbv zeta.
+  destruct (effective_user d) as [u|].
+  - match goal with |- context [match ?X with Some b => holds true b | None => _ end] => destruct X as [b|] end.
+    { left. reflexivity. }
+    destruct ch as [[[chn x] ax]|]; [|left; reflexivity].
+    match goal with |- context [match ?X with Some b => holds true b | None => _ end] => destruct X as [b|] end.
+    { left. reflexivity. }
+    destruct (f_ignoreDefaultAllow f); [|left; reflexivity].
+    right. repeat split; discriminate.
+  - destruct ch as [[[chn x] ax]|]; [|left; reflexivity].
+    match goal with |- context [match ?X with Some b => holds true b | None => _ end] => destruct X as [b|] end.
+    { left. reflexivity. }
+    destruct (f_ignoreDefaultAllow f); left; reflexivity.
+Qed.
+
+Lemma spec_flags_opposite d p a ch f :
+  f_ignoreDefaultAllow f = false \/ effective_user d = None \/ ch = None ->
+  spec_flags d p a ch f true = negb (spec_flags d p a ch f false).
+Proof.
+  intro H. destruct (spec_flags_opposite_or_refused d p a ch f) as [E|[H1 [H2 [H3 _]]]]; [exact E|].
+  destruct H as [H|[H|H]]; congruence.
+Qed.
+
+(* capability and anti-capability get opposite answers for every flag triple
+   without ignoreDefaultAllow -- and also with it, as long as the sender is not
+   a recognised account or the capability is not a channel capability *)
+Theorem anti_opp_flags d p a f b :
+  antipair p a -> db_ok d = true ->
+  f_ignoreDefaultAllow f = false \/ effective_user d = None \/ chan_parts p = None ->
+  checkCapability d p f = Ok b -> checkCapability d a f = Ok (negb b).
+Proof.
+  intros Hp Hok Hdom Hc.
+  pose proof (check_is_spec_flags d p a f false Hp Hok) as E1. cbv iota in E1.
+  pose proof (check_is_spec_flags d p a f true Hp Hok) as E2. cbv iota in E2.
+  rewrite E2. rewrite E1 in Hc. inversion Hc as [Hb]. f_equal.
+  apply spec_flags_opposite.
+  destruct Hdom as [H|[H|H]]; [left; exact H|right; left; exact H|right; right].
+  unfold chan_triple. rewrite H. reflexivity.
+Qed.
+
+(* ... and NOT in the remaining case: with ignoreDefaultAllow a recognised
+   account (no capabilities at all) is refused both "#c,x" and "#c,-x" when the
+   channel says nothing about x.  (AutoMode-only flag; DESIGN section 6 lists
+   this as a non-finding.) *)
+Definition ida_witness_db : db := Db (Some (User [] false false)) true [] [] [] true.
+Definition ida_witness_p : str := [35; 99; 44; 120].        (* "#c,x" *)
+Definition ida_witness_a : str := [35; 99; 44; 45; 120].    (* "#c,-x" *)
+
+Theorem anti_opp_ignoreDefaultAllow_refuted :
+  antipair ida_witness_p ida_witness_a /\ db_ok ida_witness_db = true /\
+  effective_user ida_witness_db <> None /\ chan_parts ida_witness_p <> None /\
+  checkCapability ida_witness_db ida_witness_p (Flags false false true) = Ok false /\
+  checkCapability ida_witness_db ida_witness_a (Flags false false true) = Ok false.
+Proof.
+  split.
+  { change ida_witness_p with ([35; 99] ++ COMMA :: [120]).
+    change ida_witness_a with ([35; 99] ++ COMMA :: DASH :: [120]).
+    apply ap_chan; vm_compute; reflexivity. }
+  split; [vm_compute; reflexivity|].
+  split; [vm_compute; discriminate|].
+  split; [vm_compute; discriminate|].
+  split; vm_compute; reflexivity.
+Qed.
+
+(* non-vacuity / the AutoMode call shape: an unrecognised sender, "#chan,foo",
+   a channel that says nothing about foo with defaultAllow, ignoreDefaultAllow:
+   the decision list refuses the capability and grants the anti-capability,
+   and so does the model *)
+Example automode_stranger :
+  let d := Db None false [([35;99;104;97;110], Chan [[45;111;112]] true)] [] [] true in
+  let p := [35;99;104;97;110;44;102;111;111] in
+  let a := [35;99;104;97;110;44;45;102;111;111] in
+  let f := Flags true true true in
+  db_ok d = true /\ dom_cap p = true /\ makeAntiCapability p = Ok a /\
+  spec_flags d p a (chan_triple p) f false = false /\ spec_flags d p a (chan_triple p) f true = true /\
+  checkCapability d p f = Ok false /\ checkCapability d a f = Ok true.
+Proof. vm_compute. auto 8. Qed.
